@@ -71,6 +71,14 @@ def main():
         window("after_command", "a Command has finished, its shell sits in the pool")
     except Exception as e:   # noqa
         out["windows"]["after_command"] = "not run: %s" % str(e)[:80]
+    # 3. a Command that is told to stop while its program is silent: its worker thread ends, it does not stay and poll
+    try:
+        c = Command("stopped", [sys.executable, "-c", "import time; time.sleep(4)"], cwd="/tmp", timeout=10)
+        time.sleep(0.5)
+        c.stop()
+        window("after_stop", "a Command was stopped while its program was silent")
+    except Exception as e:   # noqa
+        out["windows"]["after_stop"] = "not run: %s" % str(e)[:80]
     print("C20IDLE " + json.dumps(out))
     sys.stdout.flush()
     try:
